@@ -8,6 +8,7 @@ import (
 
 	"google.golang.org/protobuf/proto"
 
+	"github.com/anyproto/any-sync/commonspace/object/acl/list"
 	"github.com/anyproto/any-sync/commonspace/object/tree/objecttree"
 	"github.com/anyproto/any-sync/commonspace/object/tree/synctree/response"
 	"github.com/anyproto/any-sync/commonspace/object/tree/treechangeproto"
@@ -94,7 +95,16 @@ func (vC11Space) CreateStorageWithDeferredCreation(ctx context.Context, payload 
 
 // VerifC11Collect: the answer to a tree fetch, with or without the root it must carry, is refused with an error.
 func VerifC11Collect() {
-	c := newFullResponseCollector(BuildDeps{SpaceStorage: vC11Space{}})
+	deps := BuildDeps{SpaceStorage: vC11Space{}}
+	if rt.Choose(2) == 1 {
+		// the validator used for trees that are filtered by the reader's keys
+		me := objecttree.VerifKey("w").GetPublic()
+		acl := list.VerifNewAcl([]string{"acl0"}, []list.VerifPerm{{Key: me, Since: []int{0}, Perms: []list.AclPermissions{list.AclPermissionsReader}}})
+		acl.SetIdentity(me)
+		deps.AclList = acl
+		deps.ValidateObjectTree = objecttree.ValidateFilterRawTree
+	}
+	c := newFullResponseCollector(deps)
 	resp := &response.Response{}
 	switch rt.Choose(3) {
 	case 0: // nothing
